@@ -363,7 +363,8 @@ class Prov:
                  follow_receiver=True):
         self.fn = fn_node
         self.cfg = cfg_of(fn_node)
-        self.passthrough = set(passthrough)
+        # iteration wrappers hand their operands' elements through: `for i, x in enumerate(xs)` takes x from xs
+        self.passthrough = set(passthrough) | {"enumerate", "zip", "reversed", "sorted", "list", "tuple", "iter"}
         self.max_depth = max_depth
         self.follow_receiver = follow_receiver
 
